@@ -144,6 +144,8 @@ def main(argv=None):
             if o["status"] == "reached":
                 reach[o["name"]] += 1
                 continue
+            if o["status"] == "dup":
+                continue
             obl[(o["name"], o["status"])] += 1
             if o["status"] == "violated":
                 viol[(p["cfg"], o["name"])].append(o)
